@@ -124,6 +124,39 @@ func RecoverRecorded(path string, im *rec.Image, memKB int, tables []TableDef) *
 	return recoverImpl(path, im, memKB, tables, false, true)
 }
 
+// OpenWithTimeout restarts the file-backed database at path. A restart normally takes milliseconds; one that has not
+// returned after RestartTimeout is sampled twice (2 s apart) and reported as hung (the start-up goroutine is abandoned:
+// the caller should ask for its child process to be recycled).
+func OpenWithTimeout(path string, memKB int) (db *sqlx.DB, failure string, hung bool) {
+	done := make(chan string, 1)
+	var gid atomic.Value
+	go func() {
+		gid.Store(goid())
+		done <- guard(func() { db = sqlx.Open(path, memKB, sqlx.Options{File: true}) })
+	}()
+	select {
+	case msg := <-done:
+		if msg != "" {
+			return nil, "restart panicked: " + msg, false
+		}
+		return db, "", false
+	case <-time.After(RestartTimeout):
+		id, _ := gid.Load().(string)
+		s1 := stackOf(id)
+		time.Sleep(2 * time.Second)
+		s2 := stackOf(id)
+		select {
+		case msg := <-done:
+			if msg != "" {
+				return nil, "restart panicked: " + msg, false
+			}
+			return db, "", false
+		default:
+			return nil, fmt.Sprintf("restart did not return within %v (normal: milliseconds); start-up goroutine is in [%s] and 2 s later in [%s]", RestartTimeout, s1, s2), true
+		}
+	}
+}
+
 func recoverImpl(path string, im *rec.Image, memKB int, tables []TableDef, battery bool, record bool) *Recovered {
 	out := &Recovered{Tables: map[string][]rm.Row{}}
 	if err := im.WriteFiles(path); err != nil {
